@@ -121,6 +121,18 @@ def run(chk: Check):
         for c in cuts:
             jobs.append({"label": label + "-truncated", "faults": [[c, 0]], "names": [("cut", c)], "size": c, "paths": paths, "suffix": ".img", "extra": None,
                          "data": (lambda image=image, c=c: image[:c])})
+    # containers with untrusted length fields: an MDX header whose eof field is below / at / beyond the file, a MODE1/2352 file whose
+    # first sector is valid and whose later sectors are cut or garbage
+    (case, image, paths) = akai_base(chk)
+    mdx = cw.to_mdx(image)
+    for eof in (0, 1, 63, 64, 65, 64 + 8192 * 3, len(mdx) - 1, len(mdx) + 1, len(mdx) * 2, 2 ** 31, 2 ** 63 - 1, 2 ** 63, 2 ** 64 - 1):
+        jobs.append({"label": "mdx-eof", "faults": [[eof % (2 ** 31), eof >> 31]], "names": [("eof", eof)], "data": mdx[:40] + eof.to_bytes(8, "little") + mdx[48:],
+                     "paths": paths, "suffix": ".mdx", "extra": None})
+    mdf = cw.to_mode1_2352(image)
+    for k, cut in enumerate((16, 2351, 2352, 2353, 2352 * 3 + 16, 2352 * 20 + 1000, len(mdf) - 1)):
+        jobs.append({"label": "mdf-cut", "faults": [[cut, 0]], "names": [("cut", cut)], "data": mdf[:cut], "paths": paths[:3], "suffix": ".mdf", "extra": None})
+        jobs.append({"label": "mdf-garbage", "faults": [[cut, 1]], "names": [("garbage from", cut)], "data": mdf[:cut] + rng.randbytes(min(50000, len(mdf) - cut)),
+                     "paths": paths[:3], "suffix": ".mdf", "extra": None})
     # cue sheets: every line replaced by each mutation
     lines, binlen = naming.cue_lines(["One", "Two"])
     text = cue.render(lines, 0, 1)
